@@ -152,20 +152,6 @@ quick: yes
 funcs: spifconf_shell_expand
 */
 /*@unit
-name: exact_call_quoted
-define: U_EXACT, A_SPACE, A_TILDE, A_SQ, A_DQ, A_PCT_FIXED, SHAPE="?%a(~)?", NMAX=7, BUFF=32, VERIF_EXACT_LIBC, VERIF_OWN_STRLEN, VERIF_OWN_STRCMP, VERIF_OWN_STRDUP, VERIF_OWN_STRCHR
-src: conf.c
-tier: B
-bound: inputs of the shape ?%a(~)? -- each ? any of {a, space, ~, ', "}: a call inside quotes; line-buffer limit CONFIG_BUFF scaled to 32 bytes (stated re-binding)
-unwind: 9
-flags: --unwindset strlen.0:24,strcpy.0:24,vb_a.0:24,spiftool_safe_strncpy.0:12,mk_str.0:6,strncasecmp.0:3,spifconf_shell_expand:1,spifconf_shell_expand.7:2,spifconf_shell_expand.10:7,spifconf_shell_expand.15:1,spifconf_shell_expand.21:1,spifconf_shell_expand.22:1,spifconf_shell_expand.23:1,spifconf_shell_expand.28:8,spifconf_shell_expand.29:8,check_exact.0:9,check_exact.1:42
-objbits: 10
-backend: sat
-timeout: 600
-quick: yes
-funcs: spifconf_shell_expand
-*/
-/*@unit
 name: exact_call_cases
 define: U_CASES, CASESET=1, A_SPACE, A_TILDE, A_BS, A_SQ, A_DQ, A_PCT, A_PAREN, NMAX=14, BUFF=32, VERIF_EXACT_LIBC, VERIF_OWN_STRLEN, VERIF_OWN_STRCMP, VERIF_OWN_STRDUP, VERIF_OWN_STRCHR
 src: conf.c
@@ -223,12 +209,12 @@ funcs: spifconf_shell_expand
 */
 /*@unit
 name: reads_dollar_ok
-define: U_READS, VB_NOGROW, A_DOLLAR, A_BRACE, A_PAREN, D_FLAGS=(RF_LONEDOLLAR|RF_EMPTYNAME), NMAX=5, BUFF=32, VERIF_EXACT_LIBC, VERIF_OWN_STRLEN, VERIF_OWN_STRCMP, VERIF_OWN_STRDUP, VERIF_OWN_STRCHR
+define: U_READS, VB_NOGROW, A_DOLLAR, A_BRACE, A_PAREN, D_FLAGS=(RF_LONEDOLLAR|RF_EMPTYNAME), NMAX=4, BUFF=32, VERIF_EXACT_LIBC, VERIF_OWN_STRLEN, VERIF_OWN_STRCMP, VERIF_OWN_STRDUP, VERIF_OWN_STRCHR
 src: conf.c
 tier: B
-bound: input <= 5 characters over {a, $, {, }, (, )} with every ${ and $( closed, in a block of exactly strlen+1 bytes; $a unset or empty; line-buffer limit CONFIG_BUFF scaled to 32 bytes (stated re-binding)
-unwind: 7
-flags: --unwindset strlen.0:10,strcpy.0:10,vb_a.0:10,spiftool_safe_strncpy.0:12,mk_str.0:6,strncasecmp.0:3,spifconf_shell_expand:0,spifconf_shell_expand.7:2,spifconf_shell_expand.10:1,spifconf_shell_expand.15:1,spifconf_shell_expand.21:5,spifconf_shell_expand.22:5,spifconf_shell_expand.23:5,spifconf_shell_expand.28:6,spifconf_shell_expand.29:6
+bound: input <= 4 characters over {a, $, {, }, (, )} with every ${ and $( closed, in a block of exactly strlen+1 bytes; $a unset or empty; line-buffer limit CONFIG_BUFF scaled to 32 bytes (stated re-binding)
+unwind: 6
+flags: --unwindset strlen.0:10,strcpy.0:10,vb_a.0:10,spiftool_safe_strncpy.0:12,mk_str.0:6,strncasecmp.0:3,spifconf_shell_expand:0,spifconf_shell_expand.7:2,spifconf_shell_expand.10:1,spifconf_shell_expand.15:1,spifconf_shell_expand.21:4,spifconf_shell_expand.22:4,spifconf_shell_expand.23:4,spifconf_shell_expand.28:5,spifconf_shell_expand.29:5
 objbits: 10
 backend: sat
 timeout: 600
@@ -238,12 +224,12 @@ funcs: spifconf_shell_expand
 */
 /*@unit
 name: reads_dollar_unterminated
-define: U_READS, VB_NOGROW, A_DOLLAR, A_BRACE, A_PAREN, D_FLAGS=(RF_UNTERM|RF_LONEDOLLAR|RF_EMPTYNAME), D_NEED=RF_UNTERM, NMAX=5, BUFF=32, VERIF_EXACT_LIBC, VERIF_OWN_STRLEN, VERIF_OWN_STRCMP, VERIF_OWN_STRDUP, VERIF_OWN_STRCHR
+define: U_READS, VB_NOGROW, A_DOLLAR, A_BRACE, A_PAREN, D_FLAGS=(RF_UNTERM|RF_LONEDOLLAR|RF_EMPTYNAME), D_NEED=RF_UNTERM, NMAX=4, BUFF=32, VERIF_EXACT_LIBC, VERIF_OWN_STRLEN, VERIF_OWN_STRCMP, VERIF_OWN_STRDUP, VERIF_OWN_STRCHR
 src: conf.c
 tier: B
-bound: input <= 5 characters over {a, $, {, }, (, )} with an unclosed ${ or $(, in a block of exactly strlen+1 bytes; line-buffer limit CONFIG_BUFF scaled to 32 bytes (stated re-binding)
-unwind: 7
-flags: --unwindset strlen.0:10,strcpy.0:10,vb_a.0:10,spiftool_safe_strncpy.0:12,mk_str.0:6,strncasecmp.0:3,spifconf_shell_expand:0,spifconf_shell_expand.7:2,spifconf_shell_expand.10:1,spifconf_shell_expand.15:1,spifconf_shell_expand.21:5,spifconf_shell_expand.22:5,spifconf_shell_expand.23:5,spifconf_shell_expand.28:6,spifconf_shell_expand.29:6
+bound: input <= 4 characters over {a, $, {, }, (, )} with an unclosed ${ or $(, in a block of exactly strlen+1 bytes; line-buffer limit CONFIG_BUFF scaled to 32 bytes (stated re-binding)
+unwind: 6
+flags: --unwindset strlen.0:10,strcpy.0:10,vb_a.0:10,spiftool_safe_strncpy.0:12,mk_str.0:6,strncasecmp.0:3,spifconf_shell_expand:0,spifconf_shell_expand.7:2,spifconf_shell_expand.10:1,spifconf_shell_expand.15:1,spifconf_shell_expand.21:4,spifconf_shell_expand.22:4,spifconf_shell_expand.23:4,spifconf_shell_expand.28:5,spifconf_shell_expand.29:5
 objbits: 10
 backend: sat
 timeout: 600
@@ -298,16 +284,17 @@ funcs: spifconf_shell_expand
 */
 /*@unit
 name: reads_backquote
-define: U_READS, VB_NOGROW, A_BQ, NMAX=4, BUFF=32, VERIF_EXACT_LIBC, VERIF_OWN_STRLEN, VERIF_OWN_STRCMP, VERIF_OWN_STRDUP, VERIF_OWN_STRCHR
+define: U_READS, VB_NOGROW, A_BQ, NMAX=3, BUFF=32, VERIF_EXACT_LIBC, VERIF_OWN_STRLEN, VERIF_OWN_STRCMP, VERIF_OWN_STRDUP, VERIF_OWN_STRCHR
 src: conf.c
 tier: B
-bound: input <= 4 characters over {a, back-quote} in a block of exactly strlen+1 bytes; builtin_exec cannot create its temporary file and returns NULL; line-buffer limit CONFIG_BUFF scaled to 32 bytes (stated re-binding)
-unwind: 6
-flags: --unwindset strlen.0:16,strcpy.0:16,vb_a.0:10,spiftool_safe_strncpy.0:12,mk_str.0:6,strncasecmp.0:3,spifconf_shell_expand:1,spifconf_shell_expand.7:2,spifconf_shell_expand.10:1,spifconf_shell_expand.15:5,spifconf_shell_expand.21:1,spifconf_shell_expand.22:1,spifconf_shell_expand.23:1,spifconf_shell_expand.28:5,spifconf_shell_expand.29:5,strcat.0:4
+bound: input <= 3 characters over {a, back-quote} in a block of exactly strlen+1 bytes; builtin_exec cannot create its temporary file and returns NULL; line-buffer limit CONFIG_BUFF scaled to 32 bytes (stated re-binding)
+unwind: 5
+flags: --unwindset strlen.0:16,strcpy.0:16,vb_a.0:10,spiftool_safe_strncpy.0:12,mk_str.0:6,strncasecmp.0:3,spifconf_shell_expand:1,spifconf_shell_expand.7:2,spifconf_shell_expand.10:1,spifconf_shell_expand.15:5,spifconf_shell_expand.21:1,spifconf_shell_expand.22:1,spifconf_shell_expand.23:1,spifconf_shell_expand.28:4,spifconf_shell_expand.29:4,strcat.0:4
 objbits: 10
 backend: sat
 timeout: 600
 quick: yes
+mem: 12
 funcs: spifconf_shell_expand
 */
 /*@unit
